@@ -406,6 +406,33 @@ def run_cc(c):
             out2 = M.threshold_connect_components(m2, thr, copy=False)
             if not np.array_equal(out2, want) or not np.array_equal(m2, want):
                 fail = "threshold_connect_components(copy=False) does not write the result into its input"
+    if fail is None and mynb > 0:
+        # the same components on a floating-point map whose non-zero voxels carry non-finite / extreme values
+        # (statistical maps do: +-inf z-scores, NaN outside the brain): what is removed must be 0, the rest untouched
+        rs = np.random.RandomState(c["seed"] + 17)
+        pool = np.array([np.inf, -np.inf, np.nan, 1e308, -1e308, 5e-324, -2.5, 1.0])
+        nz = np.asarray(m) != 0
+        mf = np.zeros(m.shape, dtype=float)
+        mf[nz] = pool[rs.randint(0, len(pool), size=int(nz.sum()))]
+        sizes = np.bincount(mylab.ravel())
+        wantf = np.where((mylab > 0) & (sizes[mylab] >= thr), mf, 0.0)
+        tags.append("cc-nonfinite")
+        for cp in (True, False):
+            mf2 = mf.copy()
+            try:
+                outf = M.threshold_connect_components(mf2, thr, copy=cp)
+            except Exception as e:
+                fail = f"threshold_connect_components raised {type(e).__name__}: {e} on a map with non-finite values"
+                break
+            if not np.array_equal(np.asarray(outf), wantf, equal_nan=True):
+                bad = np.argwhere(~((np.asarray(outf) == wantf) | (np.isnan(outf) & np.isnan(wantf))))[0].tolist()
+                fail = (f"threshold_connect_components(threshold={thr}, copy={cp}) on a map with non-finite values: "
+                        f"voxel {bad} is {np.asarray(outf)[tuple(bad)]!r}, expected {wantf[tuple(bad)]!r} "
+                        f"(components below the threshold are set to 0, the others kept as they are)")
+                break
+            if cp and not np.array_equal(mf2, mf, equal_nan=True):
+                fail = "threshold_connect_components(copy=True) modified its non-finite input"
+                break
     return {"lines": lines, "impl": impl, "oracle": fail, "nontrivial": mynb >= 2, "tags": tags,
             "mutated": snap.changed()}
 
